@@ -402,7 +402,7 @@ Proof.
   induction l as [|r l IH].
   - cbn [map prod_law]. unfold expect. cbn. ring.
   - cbn [map]. rewrite expect_cons. cbn [combine Qsum].
-    rewrite !expect_plus, !expect_const, !prod_law_mass, IH. ring.
+    rewrite !expect_plus, (expect_const _ (f (r, true))), (expect_const _ (f (r, false))), !prod_law_mass, IH. ring.
 Qed.
 
 (* the expected marginal of one Monte-Carlo sample when rows are treated independently with probability P r *)
@@ -451,7 +451,7 @@ Proof.
   - unfold assign_p, assign_pl. rewrite combine_nil. cbn [prod_law]. unfold expect. cbn [Qsum fst snd].
     rewrite combine_nil. cbn [fold_left]. ring.
   - destruct conds as [|c cs].
-    + unfold assign_p, assign_pl. cbn [combine fold_left]. rewrite expect_const, prod_law_mass. ring.
+    + unfold assign_p, assign_pl. cbn [combine fold_left]. rewrite (expect_const _ (ind (is_treated init))), prod_law_mass. ring.
     + rewrite expect_cons. cbn [combine fold_left]. rewrite !IH.
       unfold assign_p, assign_pl. cbn [combine fold_left].
       rewrite (assign_step_init r (combine cs tl) (assign_step r None (c, p))).
@@ -477,7 +477,7 @@ Qed.
 
 (* AS WRITTEN: the loop is the specified loop with every condition replaced by `True` ... *)
 Definition always : cond := fun _ => true.
-Lemma mc_code_is_spec_always conds ds r : mc_code conds ds r = mc_spec (map (fun _ => always) conds) ds r.
+Lemma mc_code_is_spec_always conds ds r : mc_code conds ds r = mc_spec (map (fun _ : cond => always) conds) ds r.
 Proof.
   unfold mc_code, mc_spec. generalize (@None bool) as init. revert ds.
   induction conds as [|c cs IH]; intros ds init; [reflexivity|].
@@ -485,7 +485,7 @@ Proof.
 Qed.
 
 Lemma assign_always conds ps r : length conds = length ps ->
-  assign_p (map (fun _ => always) conds) ps r = last_opt ps.
+  assign_p (map (fun _ : cond => always) conds) ps r = last_opt ps.
 Proof.
   unfold assign_p. rewrite assign_pl_value. unfold plan_value, matching. revert ps.
   induction conds as [|c cs IH]; intros [|p ps] HL; try discriminate; [reflexivity|].
@@ -499,9 +499,9 @@ Qed.
 Theorem stmle_code_law conds ps r : length conds = length ps -> mc_code_prob conds ps r == oget (last_opt ps).
 Proof.
   intros HL. unfold mc_code_prob, law_treated.
-  rewrite (expect_ext _ _ (fun ds => ind (is_treated (mc_spec (map (fun _ => always) conds) ds r))))
+  rewrite (expect_ext _ _ (fun ds => ind (is_treated (mc_spec (map (fun _ : cond => always) conds) ds r))))
     by (intros ds; rewrite mc_code_is_spec_always; reflexivity).
-  fold (law_treated mc_spec (map (fun _ => always) conds) ps r). fold (mc_spec_prob (map (fun _ => always) conds) ps r).
+  fold (law_treated mc_spec (map (fun _ : cond => always) conds) ps r). fold (mc_spec_prob (map (fun _ : cond => always) conds) ps r).
   rewrite stmle_spec_law, (assign_always conds ps r HL). reflexivity.
 Qed.
 
@@ -559,3 +559,25 @@ Proof.
     rewrite <- (ybar_Nobs s a l) by (destruct a; apply Qpos_nz; assumption). ring. }
   rewrite (Z true), (Z false). ring.
 Qed.
+
+(* =================================================================================================
+   combined statements cited by Properties/C14.v *)
+Theorem numer_loop_perm_value conds ps conds' ps' r :
+  Permutation (combine conds ps) (combine conds' ps') -> exclusive_at (map fst (combine conds ps)) r ->
+  numer_loop conds ps r = numer_loop conds' ps' r /\
+  numer_loop conds ps r = option_map (own (trt r)) (assign_p conds ps r).
+Proof. intros. split; [apply numer_loop_perm; assumption|apply numer_loop_is_assign]. Qed.
+
+Theorem stoch_iptw_mixture_full (l : list row) (ps : nat -> Q) (P : row -> Q) :
+  (forall r, In r l -> P r == ps (st r)) -> positivity l -> complete l -> sat_g l ->
+  siptw_mean P l == mixture ps l /\ Qsum (sw P) l == Qsum wt l.
+Proof. intros HP Hpos Hc Hg. split; [apply stoch_iptw_mixture|apply (siptw_weights_sum l ps)]; assumption. Qed.
+
+Theorem stoch_iptw_p01 l : positivity l -> complete l -> sat_g l ->
+  siptw_mean (pconst 1) l == std TAll true l /\ siptw_mean (pconst 0) l == std TAll false l.
+Proof. intros. split; [apply stoch_iptw_p1_is_all|apply stoch_iptw_p0_is_none]; assumption. Qed.
+
+Theorem siptw_p01_is_iptw_arm l n : complete l -> no_miss_model l ->
+  siptw_mean (pconst 1) l == iptw_mu false TAll n 1 1 true l /\
+  siptw_mean (pconst 0) l == iptw_mu false TAll n 1 1 false l.
+Proof. intros. split; [apply siptw_p1_is_iptw_arm|apply siptw_p0_is_iptw_arm]; assumption. Qed.
